@@ -4,7 +4,8 @@
    Writer: the state components of journal.Writer (buf, i, j, written, first, pending) and the
    underlying io.Writer as the list of bytes written so far; Next / singleWriter.Write /
    fillHeader / writeBlock / writePending / Flush / Close with the branch structure of the Go
-   code, the explicit panic of fillHeader and slice-bounds panics as [WPanic].
+   code (a record is written by one Write call in jwrite, by several in jwrite_pieces), the
+   explicit panic of fillHeader and slice-bounds panics as [WPanic].
    Reader: the state components of journal.Reader (r as the remaining bytes, buf, i, j, n, last,
    err), nextChunk / corrupt / Next / singleReader.Read, driven the way recoverJournal
    (leveldb/db.go) and session.recover drive it: Next, then read the whole record
@@ -205,6 +206,31 @@ Section Journal.
      writer_total of Props/C12.v says it never does) *)
   Definition jwrite (fl : list bool) (rs : list bytes) : bytes :=
     match jwrite_res fl rs with WOk s => w_out s | _ => [] end.
+
+  (* a record written through several Write calls (session records are encoded field by field) *)
+  Fixpoint wWrites (s : wstate) (pieces : list bytes) : wres :=
+    match pieces with
+    | [] => WOk s
+    | q :: ps => wbind (wWrite (length q) s q) (fun s1 => wWrites s1 ps)
+    end.
+
+  Definition wRecordP (s : wstate) (pieces : list bytes) (fl : bool) : wres :=
+    wbind (wNext s) (fun s1 =>
+      wbind (wWrites s1 pieces) (fun s2 =>
+        if fl then wFlush s2 else WOk s2)).
+
+  Fixpoint wRecordsP (s : wstate) (fl : list bool) (rss : list (list bytes)) : wres :=
+    match rss with
+    | [] => WOk s
+    | ps :: rss' =>
+        wbind (wRecordP s ps (hd false fl)) (fun s1 => wRecordsP s1 (tl fl) rss')
+    end.
+
+  Definition jwrite_pieces_res (fl : list bool) (rss : list (list bytes)) : wres :=
+    wbind (wRecordsP w_init fl rss) wClose.
+
+  Definition jwrite_pieces (fl : list bool) (rss : list (list bytes)) : bytes :=
+    match jwrite_pieces_res fl rss with WOk s => w_out s | _ => [] end.
 
   (* ------------------------------------------------------------------ Reader *)
   Inductive rerr := ENone | EEOF | ECorrupt.
